@@ -62,6 +62,24 @@ func judgeLifecycle(rec *stats.Rec, c engine.Case) (string, string, *engine.Run)
 			return "details|" + n, fmt.Sprintf("framework details %q differ from the rule body's %q", short(x.Details, 200), short(e.V.Details, 200)), run
 		}
 	}
+	// the same lints reached through the deprecated lookups (Registry.ByName / BySource hand out *lint.Lint
+	// copies that rebuild a CertificateLint on every call): same gate, same verdict
+	if c.Kind == gen.Cert && run.Reg != nil {
+		c3, _ := gen.ParseCert(c.DER)
+		for _, n := range names {
+			dep := run.Reg.ByName(n)
+			if dep == nil {
+				return "deprecated-lookup|" + n, "Registry.ByName does not know a certificate lint of the registry", run
+			}
+			if r := dep.Execute(c3, run.Cfg); r == nil || r.Status != v[n].Status || r.Details != v[n].Details {
+				st := "nil"
+				if r != nil {
+					st = r.Status.String()
+				}
+				return "deprecated-verdict|" + n + "|" + run.Exp[n].Stage.String(), fmt.Sprintf("Registry.ByName(%q).Execute reports %s, the registry run reports %s (reference lifecycle: %s)", n, st, v[n].Status, run.Exp[n].Stage), run
+			}
+		}
+	}
 	return "", "", run
 }
 
